@@ -179,6 +179,16 @@ def r08_clip(ctx):
             exp0 = clipped if clipped is not None else x
             want = [smf.Ev('message', 'sysex', {'data': AList([exp0, D[1]], 'tuple')}, t), smf.Ev('meta', 'end_of_track', {}, 0)]
             read_reference(ctx, ai, name, [], 'R08.5', clip=clip, want=want, stream=stream)
+    # meta events are not MIDI data bytes: their payload (text in any charset, tempo, unknown types) is the same with clip on
+    T = wire.StrSym('T')
+    U = SeqVar('U', 255)
+    for label, raw_ev, want_ev in (('text', [0xff, 0x05, VLQ(wire.size_of([T.bytes])), T.bytes], smf.Ev('meta', 'lyrics', {'text': T}, t)),
+                                   ('unknown', [0xff, 0x60, VLQ(wire.size_of([U])), U], smf.Ev('unknown_meta', 'unknown_meta', {'data': AList([U], 'tuple')}, t, type_byte=0x60))):
+        raw = [VLQ(t)] + raw_ev + [VLQ(0), 0xff, 0x2f, VLQ(0)]
+        stream = [Field('4s', b'MTrk'), Field('L', wire.size_of(raw))] + raw
+        for clip in (False, True):
+            n += 1
+            read_reference(ctx, ai, f'clip:meta-{label}', [], 'R08.5', clip=clip, want=[want_ev, smf.Ev('meta', 'end_of_track', {}, 0)], stream=stream)
     ctx.floor('R08.5', n, 16)
     # clip flows from the MidiFile constructor to the readers: whole files loaded through MidiFile(file=..., clip=...)
     cls = ctx.p.cls(smf.MF, 'MidiFile')
